@@ -352,7 +352,7 @@ fn adj_for_int(params: &Params, hours: &HashMap<Prayer, RefCell<Result<PrayerHou
             let extreme = hours[&Fajr].borrow().map_or(false, |x| x.extreme);
             *hours[&Fajr].borrow_mut() = hours[&Shurooq].borrow().map(|mut x| {
                 x.value -= params.intervals[&Fajr] / MIN_SEC_PER_HR_MIN;
-                x.extreme = extreme;
+                x.extreme |= extreme;
                 x
             });
         }
@@ -361,7 +361,7 @@ fn adj_for_int(params: &Params, hours: &HashMap<Prayer, RefCell<Result<PrayerHou
             let extreme = hours[&Isha].borrow().map_or(false, |x| x.extreme);
             *hours[&Isha].borrow_mut() = hours[&Maghrib].borrow().map(|mut x| {
                 x.value += params.intervals[&Isha] / MIN_SEC_PER_HR_MIN;
-                x.extreme = extreme;
+                x.extreme |= extreme;
                 x
             });
         }
